@@ -558,7 +558,51 @@ def rule_i(ctx: Ctx) -> None:
             ctx.ok(inst, {"sequence_lengths": sorted(lens), "id_sets": sorted(names & (idsets[params[0]] | idsets[params[1]]))})
 
 
-RULES = [rule_ab, rule_c, rule_d, rule_e, rule_f, rule_g, rule_h, rule_i]
+def rule_j(ctx: Ctx) -> None:
+    ctx.rule("C20.j", "caller-supplied matchings are re-mapped side by side: when diff() works on private copies, the source node of a matching is looked up in the mapping built "
+                      "from the source's node sequence only and the target node in the mapping built from the target's only — the copies are taken exactly when the inputs may share "
+                      "node objects, so one merged id -> copy table answers a shared id with the copy of one side for both")
+    f = ctx.repo.func(MOD, "diff")
+    binds: dict[str, list[ast.AST]] = {}
+    for st in walk_no_nested(f.node):
+        if isinstance(st, ast.Assign) and len(st.targets) == 1 and isinstance(st.targets[0], ast.Name):
+            binds.setdefault(st.targets[0].id, []).append(st.value)
+    params = [a.arg for a in f.node.args.args[:2]]
+
+    def traverses(e: ast.AST, p: str) -> bool:
+        if isinstance(e, ast.Name) and len(binds.get(e.id, [])) == 1:
+            return traverses(binds[e.id][0], p)
+        if isinstance(e, ast.Call) and call_name(e) in ("tuple", "list") and len(e.args) == 1:
+            return traverses(e.args[0], p)
+        return isinstance(e, ast.Call) and isinstance(e.func, ast.Attribute) and isinstance(e.func.value, ast.Name) and e.func.value.id == p and not e.args
+
+    remaps = []
+    for x in ast.walk(f.node):
+        if isinstance(x, (ast.ListComp, ast.GeneratorExp)) and len(x.generators) == 1 and isinstance(x.generators[0].target, ast.Tuple) and len(x.generators[0].target.elts) == 2 \
+                and isinstance(x.elt, ast.Tuple) and len(x.elt.elts) == 2 and all(isinstance(e, ast.Subscript) for e in x.elt.elts):
+            remaps.append(x)
+    ctx.require(bool(remaps), "anchor vanished: diff() no longer re-maps caller matchings with `[(<source map>[id(s)], <target map>[id(t)]) for s, t in matchings]`")
+    ctx.count("matching_remaps", len(remaps))
+    for x in remaps:
+        loop_vars = [e.id if isinstance(e, ast.Name) else None for e in x.generators[0].target.elts]
+        for i, sub in enumerate(x.elt.elts):
+            side = params[i]
+            inst = f"{f.key}|{norm(sub, 50)}"
+            key_vars = {n.id for n in ast.walk(sub.slice) if isinstance(n, ast.Name)}
+            src = sub.value
+            if isinstance(src, ast.Name) and len(binds.get(src.id, [])) == 1:
+                src = binds[src.id][0]
+            if loop_vars[i] is None or loop_vars[i] not in key_vars:
+                ctx.fail(f.module, sub, f.key, sub, f"`{norm(sub, 50)}` is the {['source', 'target'][i]} side of a re-mapped matching but is not keyed by the {['first', 'second'][i]} element of the pair")
+            elif isinstance(src, ast.Call) and call_name(src) == "compute_node_mappings" and src.args and traverses(src.args[0], side):
+                ctx.ok(inst, {"side": side, "mapping": norm(src, 70)})
+            else:
+                ctx.fail(f.module, sub, f.key, sub, f"`{norm(sub, 50)}` looks the {side} node of a caller-supplied matching up in `{norm(src, 60)}`, which is not the id -> copy table built from the "
+                                                    f"{side}'s own nodes alone: a node object that occurs in both inputs (the case that forces the private copies) resolves to the copy of one "
+                                                    f"side for both, and the distiller is handed a pair that is not (source node, target node)")
+
+
+RULES = [rule_ab, rule_c, rule_d, rule_e, rule_f, rule_g, rule_h, rule_i, rule_j]
 EXPLANATION = (
     "Partition typestate of the Change Distiller decided structurally: co-location of matching_set.add with both "
     "unmatched-set removals, the both-unmatched proof (membership or snapshot+pop+break), same-type dominance (also "
